@@ -167,12 +167,13 @@ def run(ctx):
     ctx.cov.update({
         "evaluations": len(steps),
         "distinct_nontrivial": len({(c["wc"], s["k"], s["m"], s["f"], s["cls"], s["rep"], s["wc_md"], s["wc_ro"], s["blob_ro"], s["mb_md"], s["mb_open"])
-                                    for c in cases for s in c["steps"]}),
+                                    for c in cases for s in c["steps"] if s["k"] in (0, 1) or s["cls"] != 0 or s["rep"] != 0}),
         "rule": "per case: real shard (odd cases with write-cache), 6 scripted sequences (the probe of the recorded finding, failing storage Init/Open, "
                 "metabase-failure path, write-cache failure) then random ones of 14-25 steps: SetMode to one of the 4 modes (2/5 with one failing "
                 "component call out of 5 kinds), handleMetabaseFailure, Put of a fresh object, Get/Exists/Delete of an object of the case, List, "
                 "FlushWriteCache; after every step: result class, reported mode, all component modes, object locations; then SetMode(read-write) "
-                "and read-back of every stored object. evaluations = steps; distinct by (write-cache, step kind, target, fault, class, all modes after)",
+                "and read-back of every stored object. evaluations = steps; non-trivial = a mode switch, or an operation that was refused, or an operation "
+                "under a reported mode other than read-write; distinct by (write-cache, step kind, target, fault, class, reported and all component modes after)",
         "samples": [{"wc": c["wc"], "steps": [show(s) for s in c["steps"]]} for c in cases[:2]],
         "traces_validated_against_impl": len(cases),
         "hist_step": hist_op, "hist_fault": hist_fault, "hist_target_mode": hist_target, "hist_result_class": hist_cls,
